@@ -12,7 +12,7 @@ import (
 func zzC13Opts() zzStateOpts {
 	o := zzStateOpts{maxPool: 1, maxBatches: 2, maxPerBatch: 1, zeroFees: true, concreteIds: true}
 	if vrt.Thorough() {
-		o = zzStateOpts{maxPool: 1, maxBatches: 3, maxPerBatch: 2, zeroFees: true}
+		o = zzStateOpts{maxPool: 1, maxBatches: 3, maxPerBatch: 1, zeroFees: true, concreteIds: true}
 	}
 	return o
 }
